@@ -27,6 +27,16 @@ class _Top:
 
 
 TOP = _Top()
+
+
+class _NonNull:
+    """some object that is certainly not None (a tuple/list/dict display)"""
+
+    def __repr__(self):
+        return 'NONNULL'
+
+
+NONNULL = _NonNull()
 ALL = frozenset('<=>')
 _OPS = {ast.Eq: frozenset('='), ast.NotEq: frozenset('<>'), ast.Lt: frozenset('<'), ast.LtE: frozenset('<='),
         ast.Gt: frozenset('>'), ast.GtE: frozenset('>=')}
@@ -121,11 +131,15 @@ class Enumerator:
             return -v if isinstance(v, (int, float)) and not isinstance(v, bool) else TOP
         if isinstance(n, ast.Call) and isinstance(n.func, ast.Name) and n.func.id == '__cast__':
             return self.const_of(n.args[1], st)
+        if isinstance(n, (ast.Tuple, ast.List, ast.Dict, ast.Set, ast.ListComp, ast.DictComp, ast.JoinedStr)):
+            return NONNULL
         return TOP
 
     def relset(self, l, r, st):
         lt, rt = src(l), src(r)
         cl, cr = self.const_of(l, st), self.const_of(r, st)
+        if cl is NONNULL or cr is NONNULL:
+            cl = cr = TOP
         if cl is not TOP and cr is not TOP and cl is not None and cr is not None:
             try:
                 if cl == cr:
@@ -183,6 +197,10 @@ class Enumerator:
             if op in (ast.Is, ast.IsNot):
                 cl, cr = self.const_of(l, st), self.const_of(r, st)
                 if cl is not TOP and cr is not TOP:
+                    if cl is NONNULL or cr is NONNULL:
+                        if cl is None or cr is None:
+                            return op is ast.IsNot
+                        return None
                     same = (cl is cr) or (cl == cr and type(cl) is type(cr))
                     return same if op is ast.Is else (not same)
                 return None
@@ -352,9 +370,11 @@ class Enumerator:
             elif isinstance(t, ast.Attribute) and _is_chain(t):
                 st.set(src(t), c)
             elif isinstance(t, (ast.Tuple, ast.List)):
-                for e in t.elts:
+                vals = value.elts if isinstance(value, (ast.Tuple, ast.List)) and len(value.elts) == len(t.elts) else None
+                cs = [self.const_of(v, st) for v in vals] if vals is not None else None
+                for k, e in enumerate(t.elts):
                     if isinstance(e, ast.Name):
-                        st.set(e.id, TOP)
+                        st.set(e.id, cs[k] if cs is not None else TOP)
                     else:
                         self._kill_target(e, st)
             else:
@@ -507,3 +527,130 @@ def index_of(path, pred, start=0):
 def describe(path, maxn=12):
     d = path.decisions()
     return ' ; '.join(d[:maxn]) + (' ...' if len(d) > maxn else '')
+
+
+# ---------------------------------------------------------------------------------------
+# A5: definite assignment (forward must-analysis, linear in the size of the body)
+# ---------------------------------------------------------------------------------------
+
+def _comp_bound(node):
+    out = set()
+    for n in ast.walk(node):
+        if isinstance(n, ast.comprehension):
+            for x in ast.walk(n.target):
+                if isinstance(x, ast.Name):
+                    out.add(x.id)
+        if isinstance(n, ast.Lambda):
+            for a in n.args.args:
+                out.add(a.arg)
+    return out
+
+
+def _loads(node):
+    bound = _comp_bound(node)
+    return [n for n in ast.walk(node) if isinstance(n, ast.Name) and isinstance(n.ctx, ast.Load) and n.id not in bound]
+
+
+def _targets(t, out):
+    if isinstance(t, ast.Name):
+        out.add(t.id)
+    elif isinstance(t, (ast.Tuple, ast.List)):
+        for e in t.elts:
+            _targets(e, out)
+    elif isinstance(t, ast.Starred):
+        _targets(t.value, out)
+
+
+def definite_assignment(stmts, defined, tracked, const_false=()):
+    """Reads of `tracked` names that are not definitely assigned before, given the set `defined` at entry.
+
+    const_false: predicate(test) -> True if the test is to be taken as constantly false (branch pruned).
+    Returns (reads, defined_out): reads = list of (name, node)."""
+    reads = []
+
+    def use(expr, d):
+        for n in _loads(expr):
+            if n.id in tracked and n.id not in d:
+                reads.append((n.id, n))
+
+    def block(body, d):
+        d = set(d)
+        for s in body:
+            if d is None:
+                break
+            d = stmt(s, d)
+        return d
+
+    def stmt(s, d):
+        if isinstance(s, (ast.FunctionDef, ast.ClassDef, ast.Import, ast.ImportFrom, ast.Global, ast.Pass)):
+            return d
+        if isinstance(s, ast.Assign):
+            use(s.value, d)
+            for t in s.targets:
+                if not isinstance(t, (ast.Name, ast.Tuple, ast.List)):
+                    use(t, d)
+            for t in s.targets:
+                _targets(t, d)
+            return d
+        if isinstance(s, ast.AnnAssign):
+            if s.value is not None:
+                use(s.value, d)
+                _targets(s.target, d)
+            return d
+        if isinstance(s, ast.AugAssign):
+            use(s.value, d)
+            use(s.target, d) if not isinstance(s.target, ast.Name) else (reads.append((s.target.id, s.target)) if s.target.id in tracked and s.target.id not in d else None)
+            _targets(s.target, d)
+            return d
+        if isinstance(s, (ast.Expr, ast.Return, ast.Raise, ast.Assert, ast.Delete)):
+            for ch in ast.iter_child_nodes(s):
+                use(ch, d)
+            return None if isinstance(s, (ast.Return, ast.Raise)) else d
+        if isinstance(s, (ast.Break, ast.Continue)):
+            return None
+        if isinstance(s, ast.If):
+            use(s.test, d)
+            if const_false and const_false(s.test):
+                return block(s.orelse, d)
+            a = block(s.body, d)
+            b = block(s.orelse, d)
+            if a is None:
+                return b
+            if b is None:
+                return a
+            return a & b
+        if isinstance(s, ast.For):
+            use(s.iter, d)
+            d2 = set(d)
+            _targets(s.target, d2)
+            block(s.body, d2)
+            r = block(s.orelse, d) if s.orelse else d
+            return r
+        if isinstance(s, ast.While):
+            use(s.test, d)
+            block(s.body, d)
+            return block(s.orelse, d) if s.orelse else d
+        if isinstance(s, ast.With):
+            for it in s.items:
+                use(it.context_expr, d)
+                if it.optional_vars is not None:
+                    _targets(it.optional_vars, d)
+            return block(s.body, d)
+        if isinstance(s, ast.Try):
+            a = block(s.body, d)
+            outs = []
+            if a is not None:
+                outs.append(block(s.orelse, a) if s.orelse else a)
+            for h in s.handlers:
+                dh = set(d)
+                if h.name:
+                    dh.add(h.name)
+                outs.append(block(h.body, dh))
+            outs = [o for o in outs if o is not None]
+            r = set.intersection(*outs) if outs else None
+            if s.finalbody and r is not None:
+                r = block(s.finalbody, r)
+            return r
+        raise AnalysisError('definite assignment: unsupported statement %s' % type(s).__name__)
+    out = block(stmts, defined)
+    return reads, out
